@@ -759,3 +759,50 @@ def inherent_method(facts, self_ty, method):
                 if n == method:
                     return k
     return None
+
+
+# ---------------------------------------------------------------- immutable let bindings
+
+def let_env(f_or_node):
+    """{local id: init expr} for every immutable `let x = <expr>;` (plain binding, no pattern) in the function: such a local IS its initialiser"""
+    root = f_or_node['hir'] if 'hir' in f_or_node else f_or_node
+    env = {}
+    for n in nodes(root):
+        if n.get('k') == 'Let' and n.get('init') is not None and n['pat'].get('k') == 'Bind' and not n['pat'].get('sub') \
+                and (n['pat'].get('mode') or '') == 'BindingMode(No, Not)' and not n.get('els'):
+            env[n['pat']['id']] = n['init']
+    return env
+
+
+def resolve(e, env, limit=8):
+    """follow plain immutable locals to the expression they were bound to (top level only: the result is an expression node)"""
+    while limit > 0:
+        e0 = strip(e)
+        l = local(e0)
+        if l and l[1] in env:
+            e = env[l[1]]
+            limit -= 1
+            continue
+        return e0
+    return strip(e)
+
+
+def pp_resolved(e, env, depth=0):
+    """pretty-print with immutable locals replaced by their initialisers (for rules that recognise a data source by its access path)"""
+    e = resolve(e, env)
+    if depth > 6:
+        return pp(e)
+    k = e.get('k')
+    if k == 'MethodCall':
+        return '%s.%s(%s)' % (pp_resolved(e['recv'], env, depth + 1), e['name'], ', '.join(pp_resolved(a, env, depth + 1) for a in e['args']))
+    if k == 'Field':
+        return '%s.%s' % (pp_resolved(e['e'], env, depth + 1), e['name'])
+    if k == 'Call':
+        return '%s(%s)' % (short(callee(e) or '') or pp(e['fun']), ', '.join(pp_resolved(a, env, depth + 1) for a in e['args']))
+    if k in ('Cast', 'AddrOf'):
+        return pp_resolved(e['e'], env, depth + 1)
+    if k == 'Unary':
+        return '%s%s' % ({'Not': '!', 'Neg': '-', 'Deref': '*'}.get(e['op'], e['op']), pp_resolved(e['e'], env, depth + 1))
+    if k == 'Binary':
+        return '%s %s %s' % (pp_resolved(e['l'], env, depth + 1), BINOP.get(e['op'], e['op']), pp_resolved(e['r'], env, depth + 1))
+    return pp(e)
